@@ -205,7 +205,7 @@ def run(ctx):
         n = 0
         for name, text in runs:
             res = run_cfg(ctx, name, text, vsmall)
-            for doc in res.printed:
+            for doc in ctx.sample([d for d in res.printed if "cls" in d], 16000):
                 if "cls" in doc:
                     n += 1
                     if doc["inclass"] == "table" and n % ((2 if name == "one" else 12) if q else 2):
